@@ -400,4 +400,1413 @@ theorem transmitCf_eq (s : State) (allowed : Nat) (p : Bytes) (k : Nat) (r : Req
     · rw [if_neg hal]; left; rfl
   · rw [if_neg hto]; left; rfl
 
+/-! ### decomposition of `processTx` and the transmit progress invariant -/
+
+/-- the FSM `match` of `_process_tx` -/
+def txFsm (s : State) (allowed : Nat) : State × Option CanMsg × Bool :=
+  match s.txState with
+  | .idle =>
+    let (s, out) := s.readTxQueue allowed s.txQueue
+    (s, out, false)
+  | .sfStandby | .ffStandby =>
+    match s.standby with
+    | some msg =>
+      if msg.data.length ≤ allowed then
+        let s := { s with standby := none }
+        if s.txState = .ffStandby then
+          (({ s.startRxFcTimer with txState := .waitFc }), some msg, false)
+        else (s.stopSending true, some msg, false)
+      else (s, none, false)
+    | none => (s, none, false)
+  | .waitFc => (s, none, false)
+  | .transmitCf => s.transmitCf allowed
+
+/-- `_process_tx` after the Flow Control mailbox and the N_Bs timeout have been handled -/
+def txRest (s : State) (allowed : Nat) : State × Option CanMsg × Bool :=
+  if s.txState ≠ .idle && s.active.isNone then (s.raise .AssertionError, none, false) else
+  let s := if s.txState ≠ .idle && (match s.active with | some r => r.depleted | none => false) && s.standby.isNone
+           then s.stopSending true else s
+  let (s, out, imm) := txFsm s allowed
+  if s.exc.isSome then (s, none, false) else
+  match out with
+  | some msg => ({ s with rl := s.rl.inform s.now msg.data.length }, some msg, imm)
+  | none => (s, none, imm)
+
+/-- `_process_tx` after the Flow Control mailbox has been handled -/
+def txTail (s : State) (allowed : Nat) : State × Option CanMsg × Bool :=
+  txRest (if s.timerFc.timedOut s.now then (s.error .FlowControlTimeout).stopSending false else s) allowed
+
+theorem processTx_eq (s : State) (hp : s.pendingFc = false) :
+    s.processTx =
+      match s.lastFc with
+      | some f =>
+        if f.status = 2 then (((({ s with lastFc := none } : State).stopSending false).error .Overflow), none, false)
+        else txTail (({ s with lastFc := none } : State).handleFc f) (s.rl.allowedBytes s.cfg.rlBitMax)
+      | none => txTail { s with lastFc := none } (s.rl.allowedBytes s.cfg.rlBitMax) := by
+  unfold processTx
+  simp only [hp, Bool.false_eq_true, if_false]
+  cases hfc : s.lastFc with
+  | none => rfl
+  | some f =>
+    simp only []
+    by_cases h2 : f.status = 2
+    · simp only [h2, if_true]
+    · simp only [h2, if_false]; rfl
+
+/-- `_process_tx` when no Flow Control has to be sent first -/
+def txMain (s : State) : State × Option CanMsg × Bool :=
+  match s.lastFc with
+  | some f =>
+    if f.status = 2 then (((({ s with lastFc := none } : State).stopSending false).error .Overflow), none, false)
+    else txTail (({ s with lastFc := none } : State).handleFc f) (s.rl.allowedBytes s.cfg.rlBitMax)
+  | none => txTail { s with lastFc := none } (s.rl.allowedBytes s.cfg.rlBitMax)
+
+theorem processTx_eq_main (s : State) (hp : s.pendingFc = false) : s.processTx = txMain s := processTx_eq s hp
+
+theorem processTx_listen (s : State) (st : Nat) (hp : s.pendingFc = true) (hl : s.cfg.listen = true)
+    (hst : s.pendingFcStatus = some st) :
+    s.processTx = txMain (if st = 0 then ({ s with pendingFc := false } : State).startRxCfTimer
+                          else { s with pendingFc := false }) := by
+  by_cases h0 : st = 0
+  · subst h0
+    simp only [if_true]
+    rw [← processTx_eq_main _ rfl]
+    unfold processTx
+    simp only [hp, hst, hl, if_true, startRxCfTimer, Bool.not_true, Bool.false_eq_true, if_false]
+  · simp only [h0, if_false]
+    rw [← processTx_eq_main _ rfl]
+    unfold processTx
+    simp only [hp, hst, hl, h0, if_true, Bool.not_true, Bool.false_eq_true, if_false]
+
+instance (tc : TxCfg) (n : Nat) : Decidable (NeedsFF tc n) := inferInstanceAs (Decidable (_ ∧ _))
+
+/-- `r0` is the request for payload `p` as it sits in the queue: nothing pulled yet -/
+def Fresh (r0 : Req) (p : Bytes) : Prop := Feeds r0 p ∧ r0.consumed = 0
+
+/-- the transmit FSM has handed out the first `k ≥ 1` frames of the segmentation of `p` (request `r0`),
+    more remain, and it is waiting for a Flow Control or pacing Consecutive Frames -/
+def TxProg (s : State) (r0 : Req) (p : Bytes) (k : Nat) : Prop :=
+  1 ≤ k ∧ NeedsFF (TxCfg.of s.cfg s.addr) p.length ∧
+  carried (TxCfg.of s.cfg s.addr) p.length k < p.length ∧
+  s.active = some (Req.adv r0 (carried (TxCfg.of s.cfg s.addr) p.length k)) ∧
+  s.txFrameLen = p.length ∧ s.txSeq = k % 16 ∧
+  (s.txState = .waitFc ∨ (s.txState = .transmitCf ∧ s.remoteBs.isSome = true))
+
+/-- arbitration id used for the frames of request `r0`: its own target address type for a Single Frame,
+    always physical for a segmented message -/
+def arbId (s : State) (r0 : Req) (p : Bytes) : Nat :=
+  s.addr.tx.txId (if NeedsFF (TxCfg.of s.cfg s.addr) p.length then .physical else r0.tat)
+
+/-- the CAN message for frame data `d` of request `r0` -/
+def msgFor (s : State) (r0 : Req) (p : Bytes) (d : Bytes) : CanMsg := frameMsg s.cfg s.addr (arbId s r0 p) d
+
+/-- the first frame of `p` has been built but is parked by the rate limiter -/
+def TxParked (s : State) (r0 : Req) (p : Bytes) : Prop :=
+  ∃ d0, (segment (TxCfg.of s.cfg s.addr) p)[0]? = some d0 ∧ s.standby = some (msgFor s r0 p d0) ∧
+    ((s.txState = .sfStandby ∧ segment (TxCfg.of s.cfg s.addr) p = [d0] ∧
+        ¬ NeedsFF (TxCfg.of s.cfg s.addr) p.length ∧ s.active = some (Req.adv r0 p.length)) ∨
+     (s.txState = .ffStandby ∧ NeedsFF (TxCfg.of s.cfg s.addr) p.length ∧
+        s.active = some (Req.adv r0 (carried (TxCfg.of s.cfg s.addr) p.length 1)) ∧
+        s.txFrameLen = p.length ∧ s.txSeq = 1))
+
+/-- `k` frames of the segmentation of `p` have been handed to the CAN layer and the transfer is going on -/
+def TxInv (s : State) (r0 : Req) (p : Bytes) (k : Nat) : Prop :=
+  (k = 0 ∧ TxParked s r0 p) ∨ TxProg s r0 p k
+
+/-- the fields the transmit invariant reads are the same in `s'` -/
+structure TxSame (s s' : State) : Prop where
+  cfg : s'.cfg = s.cfg
+  addr : s'.addr = s.addr
+  active : s'.active = s.active
+  standby : s'.standby = s.standby
+  txFrameLen : s'.txFrameLen = s.txFrameLen
+  txSeq : s'.txSeq = s.txSeq
+  txState : s'.txState = s.txState
+  remoteBs : s'.remoteBs = s.remoteBs
+
+theorem TxSame.inv {s s' : State} (h : TxSame s s') (r0 : Req) (p : Bytes) (k : Nat) (hi : TxInv s r0 p k) :
+    TxInv s' r0 p k := by
+  obtain ⟨h1, h2, h3, h4, h5, h6, h7, h8⟩ := h
+  simpa only [TxInv, TxParked, TxProg, msgFor, arbId, h1, h2, h3, h4, h5, h6, h7, h8] using hi
+
+def NoDone (evs : List Ev) : Prop := ∀ e ∈ evs, ∀ i b, e ≠ Ev.done i b
+
+/-- cfg, address and exception status unchanged; log extended by non-completion events -/
+structure Quiet (s s' : State) : Prop where
+  cfg : s'.cfg = s.cfg
+  addr : s'.addr = s.addr
+  exc : s'.exc = s.exc
+  log : ∃ evs, s'.log = evs ++ s.log ∧ NoDone evs
+
+/-- the transfer of request `r0` has been aborted: FSM idle, `complete(False)` logged -/
+structure Aborted (s s' : State) (r0 : Req) : Prop where
+  cfg : s'.cfg = s.cfg
+  addr : s'.addr = s.addr
+  txState : s'.txState = .idle
+  active : s'.active = none
+  standby : s'.standby = none
+  log : ∃ evs, s'.log = evs ++ s.log ∧ Ev.done r0.id false ∈ evs
+
+theorem TxInv.active {s : State} {r0 : Req} {p : Bytes} {k : Nat} (hi : TxInv s r0 p k) :
+    ∃ c, s.active = some (Req.adv r0 c) := by
+  rcases hi with ⟨-, d0, -, -, h | h⟩ | h
+  · exact ⟨_, h.2.2.2⟩
+  · exact ⟨_, h.2.2.1⟩
+  · exact ⟨_, h.2.2.2.1⟩
+
+theorem TxInv.not_idle {s : State} {r0 : Req} {p : Bytes} {k : Nat} (hi : TxInv s r0 p k) :
+    s.txState ≠ .idle := by
+  rcases hi with ⟨-, d0, -, -, h | h⟩ | h
+  · rw [h.1]; decide
+  · rw [h.1]; decide
+  · rcases h.2.2.2.2.2.2 with h | h
+    · rw [h]; decide
+    · rw [h.1]; decide
+
+theorem NoDone_nil : NoDone [] := by intro e he; cases he
+
+theorem NoDone_err (t : Nat) (e : Err) : NoDone [Ev.err t e] := by
+  intro x hx i b; simp at hx; subst hx; simp
+
+theorem Quiet.refl (s : State) : Quiet s s := ⟨rfl, rfl, rfl, [], rfl, NoDone_nil⟩
+
+theorem Quiet.trans {a b c : State} (h1 : Quiet a b) (h2 : Quiet b c) : Quiet a c := by
+  obtain ⟨c1, a1, e1, evs1, l1, n1⟩ := h1
+  obtain ⟨c2, a2, e2, evs2, l2, n2⟩ := h2
+  refine ⟨c2.trans c1, a2.trans a1, e2.trans e1, evs2 ++ evs1, by rw [l2, l1, List.append_assoc], ?_⟩
+  intro e he
+  rcases List.mem_append.mp he with h | h
+  · exact n2 e h
+  · exact n1 e h
+
+theorem Quiet.error (s : State) (e : Err) : Quiet s (s.error e) :=
+  ⟨rfl, rfl, rfl, [Ev.err s.now e], rfl, NoDone_err _ _⟩
+
+theorem TxSame.error (s : State) (e : Err) : TxSame s (s.error e) := ⟨rfl, rfl, rfl, rfl, rfl, rfl, rfl, rfl⟩
+
+theorem Aborted.stop (s : State) (e : Err) (r0 : Req) (c : Nat) (h : s.active = some (Req.adv r0 c)) :
+    Aborted s ((s.error e).stopSending false) r0 := by
+  refine ⟨?_, ?_, ?_, ?_, ?_, ?_⟩ <;> simp only [stopSending, State.error, emit, h]
+  exact ⟨[Ev.done r0.id false, Ev.err s.now e], rfl, by simp⟩
+
+theorem handleFc_inv (s : State) (f : FcFrame) (r0 : Req) (p : Bytes) (k : Nat) (hi : TxInv s r0 p k) :
+    (TxInv (s.handleFc f) r0 p k ∧ Quiet s (s.handleFc f)) ∨ Aborted s (s.handleFc f) r0 := by
+  have hne := hi.not_idle
+  obtain ⟨c, hact⟩ := hi.active
+  unfold handleFc
+  rw [if_neg hne]
+  split
+  · split
+    · exact Or.inl ⟨(TxSame.error s _).inv _ _ _ hi, Quiet.error s _⟩
+    · split
+      · exact Or.inr (Aborted.stop s _ r0 c hact)
+      · left
+        dsimp only
+        split
+        · refine ⟨?_, ⟨rfl, rfl, rfl, [], rfl, NoDone_nil⟩⟩
+          simp only [TxInv, TxParked, TxProg, msgFor, arbId, startRxFcTimer] at hi ⊢
+          grind
+        · exact ⟨TxSame.inv ⟨rfl, rfl, rfl, rfl, rfl, rfl, rfl, rfl⟩ _ _ _ hi, ⟨rfl, rfl, rfl, [], rfl, NoDone_nil⟩⟩
+  · split
+    · left
+      dsimp only
+      by_cases hw : s.txState = .waitFc
+      · simp only [hw, if_true]
+        refine ⟨?_, ⟨rfl, rfl, rfl, [], rfl, NoDone_nil⟩⟩
+        simp only [TxInv, TxParked, TxProg, msgFor, arbId] at hi ⊢
+        grind
+      · simp only [hw, if_false]
+        refine ⟨?_, ⟨rfl, rfl, rfl, [], rfl, NoDone_nil⟩⟩
+        simp only [TxInv, TxParked, TxProg, msgFor, arbId] at hi ⊢
+        grind
+    · exact Or.inl ⟨hi, Quiet.refl s⟩
+
+theorem Req.adv_adv (r : Req) (a b : Nat) : Req.adv (Req.adv r a) b = Req.adv r (a + b) := by
+  simp [Req.adv, List.drop_drop, Nat.add_assoc]
+
+theorem Fresh.feeds_adv {r0 : Req} {p : Bytes} (h : Fresh r0 p) (c : Nat) (hc : c ≤ p.length) :
+    Feeds (Req.adv r0 c) p :=
+  (h.1.consume c true (by simp [Req.remaining, h.2, h.1.size]; exact hc)).2
+
+theorem Fresh.adv_consumed {r0 : Req} {p : Bytes} (h : Fresh r0 p) (c : Nat) : (Req.adv r0 c).consumed = c := by
+  simp [Req.adv, h.2]
+
+/-- the frames of `p` as the layer in state `s` must emit them -/
+def segOf (s : State) (p : Bytes) : List Bytes := segment (TxCfg.of s.cfg s.addr) p
+
+/-- the request completed successfully: FSM idle, `complete(True)` logged -/
+structure Finished (s s' : State) (r0 : Req) : Prop where
+  cfg : s'.cfg = s.cfg
+  addr : s'.addr = s.addr
+  exc : s'.exc = s.exc
+  txState : s'.txState = .idle
+  active : s'.active = none
+  standby : s'.standby = none
+  log : ∃ evs, s'.log = Ev.done r0.id true :: evs ++ s.log ∧ NoDone evs
+
+/-- one transmit pass while request `r0` is in flight with `k` frames out: nothing emitted; or frame `k` emitted and
+    more to come; or frame `k` was the last one and the request completed -/
+def Advance (s s' : State) (out : Option CanMsg) (r0 : Req) (p : Bytes) (k : Nat) : Prop :=
+  (out = none ∧ TxInv s' r0 p k ∧ Quiet s s') ∨
+  (∃ d, (segOf s p)[k]? = some d ∧ out = some (msgFor s r0 p d) ∧ TxInv s' r0 p (k + 1) ∧ Quiet s s') ∨
+  (∃ d, (segOf s p)[k]? = some d ∧ (segOf s p).length = k + 1 ∧ out = some (msgFor s r0 p d) ∧ Finished s s' r0)
+
+theorem NoDone_pullLog (r : Req) (n : Nat) : NoDone (pullLog r n) := by
+  unfold pullLog; split
+  · intro x hx i b; simp at hx; subst hx; simp
+  · exact NoDone_nil
+
+theorem length_of_getElem? {α : Type} (l : List α) (k : Nat) (d : α) (h1 : l[k]? = some d) (h2 : l[k+1]? = none) :
+    l.length = k + 1 := by
+  have := List.getElem?_eq_none_iff.mp h2
+  have : k < l.length := by
+    rcases Nat.lt_or_ge k l.length with h | h
+    · exact h
+    · rw [List.getElem?_eq_none_iff.mpr h] at h1; cases h1
+  omega
+
+theorem txFsm_prog_cf (s : State) (allowed : Nat) (r0 : Req) (p : Bytes) (k : Nat)
+    (hv : s.cfg.valid = true) (hfr : Fresh r0 p) (hi : TxProg s r0 p k) (hst : s.txState = .transmitCf) :
+    Advance s (s.transmitCf allowed).1 (s.transmitCf allowed).2.1 r0 p k := by
+  obtain ⟨hk, hff, hlt, hact, hlen, hseq, hstate⟩ := hi
+  have hrb : s.remoteBs.isSome = true := by
+    rcases hstate with h | h
+    · rw [hst] at h; cases h
+    · exact h.2
+  obtain ⟨rbs, hbs⟩ := Option.isSome_iff_exists.mp hrb
+  have hvt := valid_of s.cfg s.addr hv
+  generalize hc : carried (TxCfg.of s.cfg s.addr) p.length k = c at *
+  have hcons := hfr.adv_consumed c
+  obtain ⟨d, hd, hcases⟩ := transmitCf_eq s allowed p k (Req.adv r0 c) rbs hv hact hbs
+    (hfr.feeds_adv c (by omega)) hk hff (by rw [hcons, hc]) (by rw [hcons]; exact hlt) hseq
+  have hstep := carried_step (TxCfg.of s.cfg s.addr) p.length k hk (by omega)
+  have hmsg : frameMsg s.cfg s.addr (s.addr.tx.txId .physical) d = msgFor s r0 p d := by
+    simp [msgFor, arbId, hff]
+  rw [hmsg, hcons] at hcases
+  generalize hm : min (cfRoom (TxCfg.of s.cfg s.addr)) (p.length - c) = m at *
+  rcases hcases with h | ⟨h1, h⟩ | ⟨h1, h⟩ | ⟨h1, h⟩
+  · rw [h]; dsimp only
+    exact Or.inl ⟨rfl, Or.inr ⟨hk, hff, by omega, by rw [hc]; exact hact, hlen, hseq, hstate⟩, Quiet.refl s⟩
+  · rw [h]; dsimp only
+    refine Or.inr (Or.inr ⟨d, hd, ?_, rfl, ?_⟩)
+    · apply length_of_getElem? _ _ _ hd
+      show (segment (TxCfg.of s.cfg s.addr) p)[k+1]? = none
+      rw [segment_ff_succ _ hvt p hff (k+1) (by omega), if_neg (by omega)]
+    · refine ⟨rfl, rfl, rfl, rfl, ?_, rfl, ?_⟩
+      · simp [stopSending, cfSent]
+      · exact ⟨pullLog (Req.adv r0 c) m, by simp [stopSending, cfSent, emit, Req.adv], NoDone_pullLog _ _⟩
+  · rw [h]; dsimp only
+    refine Or.inr (Or.inl ⟨d, hd, rfl, Or.inr ⟨by omega, hff, h1, ?_, hlen, ?_, Or.inl rfl⟩, ?_⟩)
+    · simp only [cfSent, Req.adv_adv]; congr 2; omega
+    · simp only [cfSent, hseq]; omega
+    · exact ⟨rfl, rfl, rfl, pullLog (Req.adv r0 c) m, rfl, NoDone_pullLog _ _⟩
+  · rw [h]; dsimp only
+    refine Or.inr (Or.inl ⟨d, hd, rfl, Or.inr ⟨by omega, hff, h1, ?_, hlen, ?_, Or.inr ⟨hst, hrb⟩⟩, ?_⟩)
+    · simp only [cfSent, Req.adv_adv]; congr 2; omega
+    · simp only [cfSent, hseq]; omega
+    · exact ⟨rfl, rfl, rfl, pullLog (Req.adv r0 c) m, rfl, NoDone_pullLog _ _⟩
+
+
+@[simp] theorem stopSending_cfg (s : State) (b : Bool) : (s.stopSending b).cfg = s.cfg := by
+  unfold stopSending; cases s.active <;> rfl
+@[simp] theorem stopSending_addr (s : State) (b : Bool) : (s.stopSending b).addr = s.addr := by
+  unfold stopSending; cases s.active <;> rfl
+@[simp] theorem stopSending_exc (s : State) (b : Bool) : (s.stopSending b).exc = s.exc := by
+  unfold stopSending; cases s.active <;> rfl
+@[simp] theorem stopSending_txState (s : State) (b : Bool) : (s.stopSending b).txState = .idle := by
+  unfold stopSending; cases s.active <;> rfl
+@[simp] theorem stopSending_active (s : State) (b : Bool) : (s.stopSending b).active = none := by
+  unfold stopSending; cases h : s.active <;> simp [h]
+@[simp] theorem stopSending_standby (s : State) (b : Bool) : (s.stopSending b).standby = none := by
+  unfold stopSending; cases s.active <;> rfl
+@[simp] theorem stopSending_txQueue (s : State) (b : Bool) : (s.stopSending b).txQueue = s.txQueue := by
+  unfold stopSending; cases s.active <;> rfl
+theorem stopSending_log (s : State) (b : Bool) (r : Req) (h : s.active = some r) :
+    (s.stopSending b).log = Ev.done r.id b :: s.log := by
+  unfold stopSending; rw [h]; rfl
+
+theorem carried_one_lt (tc : TxCfg) (n : Nat) (hv : ValidTx tc) (hff : NeedsFF tc n) : carried tc n 1 < n := by
+  have := ffRoom_lt tc n hff hv
+  simp [carried]; omega
+
+theorem txFsm_inv (s : State) (allowed : Nat) (r0 : Req) (p : Bytes) (k : Nat)
+    (hv : s.cfg.valid = true) (hfr : Fresh r0 p) (hi : TxInv s r0 p k) :
+    Advance s (txFsm s allowed).1 (txFsm s allowed).2.1 r0 p k := by
+  have hvt := valid_of s.cfg s.addr hv
+  rcases hi with ⟨hk, d0, hd0, hsb, ⟨hst, hseg, hnff, hact⟩ | ⟨hst, hff, hact, hlen, hseq⟩⟩ | hprog
+  · -- Single Frame parked
+    subst hk
+    unfold txFsm
+    rw [hst]; dsimp only; rw [hsb]; dsimp only
+    by_cases hal : (msgFor s r0 p d0).data.length ≤ allowed
+    · rw [if_pos hal]
+      simp only [reduceCtorEq, if_false]
+      refine Or.inr (Or.inr ⟨d0, hd0, by simp [segOf, hseg], rfl, ?_⟩)
+      refine ⟨by simp, by simp, by simp, by simp, by simp, by simp, ?_⟩
+      exact ⟨[], stopSending_log _ _ (Req.adv r0 p.length) hact, NoDone_nil⟩
+    · rw [if_neg hal]
+      exact Or.inl ⟨rfl, Or.inl ⟨rfl, d0, hd0, hsb, Or.inl ⟨hst, hseg, hnff, hact⟩⟩, Quiet.refl s⟩
+  · -- First Frame parked
+    subst hk
+    unfold txFsm
+    rw [hst]; dsimp only; rw [hsb]; dsimp only
+    by_cases hal : (msgFor s r0 p d0).data.length ≤ allowed
+    · rw [if_pos hal]
+      simp only [if_true]
+      refine Or.inr (Or.inl ⟨d0, hd0, rfl, Or.inr ⟨Nat.le_refl 1, hff, carried_one_lt _ _ hvt hff, hact, hlen, hseq,
+        Or.inl rfl⟩, ⟨rfl, rfl, rfl, [], rfl, NoDone_nil⟩⟩)
+    · rw [if_neg hal]
+      exact Or.inl ⟨rfl, Or.inl ⟨rfl, d0, hd0, hsb, Or.inr ⟨hst, hff, hact, hlen, hseq⟩⟩, Quiet.refl s⟩
+  · rcases hprog.2.2.2.2.2.2 with hst | ⟨hst, -⟩
+    · unfold txFsm
+      rw [hst]
+      exact Or.inl ⟨rfl, Or.inr hprog, Quiet.refl s⟩
+    · have : txFsm s allowed = s.transmitCf allowed := by unfold txFsm; rw [hst]
+      rw [this]
+      exact txFsm_prog_cf s allowed r0 p k hv hfr hprog hst
+
+/-- configuration and address unchanged, log only extended -/
+structure Ext (s s' : State) : Prop where
+  cfg : s'.cfg = s.cfg
+  addr : s'.addr = s.addr
+  log : ∃ evs, s'.log = evs ++ s.log
+
+theorem Ext.refl (s : State) : Ext s s := ⟨rfl, rfl, [], rfl⟩
+
+theorem Ext.trans {a b c : State} (h1 : Ext a b) (h2 : Ext b c) : Ext a c := by
+  obtain ⟨c1, a1, e1, l1⟩ := h1
+  obtain ⟨c2, a2, e2, l2⟩ := h2
+  exact ⟨c2.trans c1, a2.trans a1, e2 ++ e1, by rw [l2, l1, List.append_assoc]⟩
+
+macro "log_ext" : tactic => `(tactic|
+  (first | exact ⟨[], rfl⟩ | exact ⟨[_], rfl⟩ | exact ⟨[_, _], rfl⟩ | exact ⟨[_, _, _], rfl⟩ | exact ⟨[_, _, _, _], rfl⟩))
+
+theorem startTx_ext (s : State) (r : Req) (a : Nat) : Ext s (s.startTx r a).1 := by
+  refine ⟨?_, ?_, ?_⟩
+  · unfold startTx consumeActive
+    grind [stopSending, State.error, emit, raise, startRxFcTimer]
+  · unfold startTx consumeActive
+    grind [stopSending, State.error, emit, raise, startRxFcTimer]
+  · unfold startTx consumeActive
+    dsimp only
+    repeat' split
+    all_goals (simp only [stopSending, State.error, emit, raise, startRxFcTimer])
+    all_goals log_ext
+
+theorem readTxQueue_ext (a : Nat) (q : List Req) : ∀ s : State, Ext s (s.readTxQueue a q).1 := by
+  induction q with
+  | nil => intro s; exact ⟨rfl, rfl, [], rfl⟩
+  | cons r rest ih =>
+    intro s
+    unfold readTxQueue
+    dsimp only
+    split
+    · refine Ext.trans ?_ (ih _)
+      exact ⟨rfl, rfl, [_], rfl⟩
+    · refine Ext.trans ?_ (startTx_ext _ r a)
+      exact ⟨rfl, rfl, [], rfl⟩
+
+
+theorem txRest_idle_ext (s : State) (a : Nat) (hst : s.txState = .idle) : Ext s (txRest s a).1 := by
+  unfold txRest
+  simp only [hst, ne_eq, not_true_eq_false, decide_false, Bool.false_and, Bool.false_eq_true, if_false]
+  unfold txFsm
+  simp only [hst]
+  have h := readTxQueue_ext a s.txQueue s
+  generalize s.readTxQueue a s.txQueue = X at h ⊢
+  obtain ⟨s1, out⟩ := X
+  dsimp only at h ⊢
+  split
+  · exact h
+  · split
+    · exact Ext.trans h ⟨rfl, rfl, [], rfl⟩
+    · exact h
+
+theorem txTail_idle_ext (s : State) (a : Nat) (hst : s.txState = .idle) : Ext s (txTail s a).1 := by
+  unfold txTail
+  split
+  · refine Ext.trans ?_ (txRest_idle_ext _ a (by simp))
+    refine ⟨by simp [State.error, emit], by simp [State.error, emit], ?_⟩
+    simp only [stopSending, State.error, emit]
+    split <;> log_ext
+  · exact txRest_idle_ext s a hst
+
+/-- the transfer of `r0` failed: `complete(False)` newly logged -/
+structure Failed (s s' : State) (r0 : Req) : Prop where
+  cfg : s'.cfg = s.cfg
+  addr : s'.addr = s.addr
+  log : ∃ evs, s'.log = evs ++ s.log ∧ Ev.done r0.id false ∈ evs
+
+theorem Aborted.failed_of_ext {s s1 s' : State} {r0 : Req} (h : Aborted s s1 r0) (he : Ext s1 s') :
+    Failed s s' r0 := by
+  obtain ⟨evs, hl, hm⟩ := h.log
+  obtain ⟨evs2, hl2⟩ := he.log
+  exact ⟨he.cfg.trans h.cfg, he.addr.trans h.addr, evs2 ++ evs, by rw [hl2, hl, List.append_assoc],
+    List.mem_append_right _ hm⟩
+
+theorem TxInv.not_depleted {s : State} {r0 : Req} {p : Bytes} {k : Nat} (hfr : Fresh r0 p) (hi : TxInv s r0 p k) :
+    ((match s.active with | some r => r.depleted | none => false) && s.standby.isNone) = false := by
+  rcases hi with ⟨-, d0, -, hsb, -⟩ | ⟨-, -, hlt, hact, -⟩
+  · rw [hsb]; simp
+  · rw [hact]
+    have h1 := hfr.1.flag
+    have h2 := hfr.1.size
+    have h3 := hfr.2
+    simp [Req.depleted, Req.adv, h1, h2, h3]
+    omega
+
+/-- the part of a transmit pass after the FSM step: rate-limiter bookkeeping -/
+theorem Advance.wrap {s s1 : State} {out : Option CanMsg} {r0 : Req} {p : Bytes} {k : Nat} (imm : Bool)
+    (hexc : s.exc = none) (h : Advance s s1 out r0 p k) :
+    Advance s
+      (if s1.exc.isSome then (s1, none, false) else
+        match out with
+        | some msg => ({ s1 with rl := s1.rl.inform s1.now msg.data.length }, some msg, imm)
+        | none => (s1, none, imm)).1
+      (if s1.exc.isSome then (s1, none, false) else
+        match out with
+        | some msg => ({ s1 with rl := s1.rl.inform s1.now msg.data.length }, some msg, imm)
+        | none => (s1, none, imm)).2.1 r0 p k := by
+  have he : s1.exc = none := by
+    rcases h with ⟨-, -, hq⟩ | ⟨d, -, -, -, hq⟩ | ⟨d, -, -, -, hf⟩
+    · rw [hq.exc, hexc]
+    · rw [hq.exc, hexc]
+    · rw [hf.exc, hexc]
+  have hif : ¬ (s1.exc.isSome = true) := by rw [he]; simp
+  rw [if_neg hif]
+  rcases h with ⟨ho, hi, hq⟩ | ⟨d, hd, ho, hi, hq⟩ | ⟨d, hd, hl, ho, hf⟩
+  · subst ho; exact Or.inl ⟨rfl, hi, hq⟩
+  · subst ho
+    exact Or.inr (Or.inl ⟨d, hd, rfl, TxSame.inv ⟨rfl, rfl, rfl, rfl, rfl, rfl, rfl, rfl⟩ _ _ _ hi,
+      ⟨hq.cfg, hq.addr, hq.exc, hq.log⟩⟩)
+  · subst ho
+    exact Or.inr (Or.inr ⟨d, hd, hl, rfl, ⟨hf.cfg, hf.addr, hf.exc, hf.txState, hf.active, hf.standby, hf.log⟩⟩)
+
+theorem txRest_inv (s : State) (a : Nat) (r0 : Req) (p : Bytes) (k : Nat)
+    (hv : s.cfg.valid = true) (hfr : Fresh r0 p) (hexc : s.exc = none) (hi : TxInv s r0 p k) :
+    Advance s (txRest s a).1 (txRest s a).2.1 r0 p k := by
+  obtain ⟨c, hact⟩ := hi.active
+  unfold txRest
+  rw [hact]
+  simp only [Option.isNone_some, Bool.and_false, Bool.false_eq_true, if_false]
+  have hnd := hi.not_depleted hfr
+  rw [hact] at hnd
+  simp only [] at hnd
+  simp only [Bool.and_assoc, hnd, Bool.and_false, Bool.false_eq_true, if_false]
+  have h := txFsm_inv s a r0 p k hv hfr hi
+  generalize txFsm s a = X at h ⊢
+  obtain ⟨s1, out, imm⟩ := X
+  exact Advance.wrap imm hexc h
+
+
+@[simp] theorem stopSending_now (s : State) (b : Bool) : (s.stopSending b).now = s.now := by
+  unfold stopSending; cases s.active <;> rfl
+
+theorem NoDone_append {a b : List Ev} (ha : NoDone a) (hb : NoDone b) : NoDone (a ++ b) := by
+  intro e he
+  rcases List.mem_append.mp he with h | h
+  · exact ha e h
+  · exact hb e h
+
+theorem Advance.of_quiet {s s1 s' : State} {out : Option CanMsg} {r0 : Req} {p : Bytes} {k : Nat}
+    (hq : Quiet s s1) (h : Advance s1 s' out r0 p k) : Advance s s' out r0 p k := by
+  have hseg : segOf s1 p = segOf s p := by simp only [segOf, hq.cfg, hq.addr]
+  have hmsg : ∀ d, msgFor s1 r0 p d = msgFor s r0 p d := by intro d; simp only [msgFor, arbId, hq.cfg, hq.addr]
+  rcases h with ⟨ho, hi, hq2⟩ | ⟨d, hd, ho, hi, hq2⟩ | ⟨d, hd, hl, ho, hf⟩
+  · exact Or.inl ⟨ho, hi, hq.trans hq2⟩
+  · exact Or.inr (Or.inl ⟨d, by rw [← hseg]; exact hd, by rw [← hmsg]; exact ho, hi, hq.trans hq2⟩)
+  · refine Or.inr (Or.inr ⟨d, by rw [← hseg]; exact hd, by rw [← hseg]; exact hl, by rw [← hmsg]; exact ho, ?_⟩)
+    obtain ⟨evs1, hl1, hn1⟩ := hq.log
+    obtain ⟨evs2, hl2, hn2⟩ := hf.log
+    exact ⟨hf.cfg.trans hq.cfg, hf.addr.trans hq.addr, hf.exc.trans hq.exc, hf.txState, hf.active, hf.standby,
+      evs2 ++ evs1, by rw [hl2, hl1]; simp, NoDone_append hn2 hn1⟩
+
+theorem Failed.of_quiet {s s1 s' : State} {r0 : Req} (hq : Quiet s s1) (h : Failed s1 s' r0) : Failed s s' r0 := by
+  obtain ⟨evs1, hl1, -⟩ := hq.log
+  obtain ⟨evs2, hl2, hm⟩ := h.log
+  exact ⟨h.cfg.trans hq.cfg, h.addr.trans hq.addr, evs2 ++ evs1, by rw [hl2, hl1]; simp, List.mem_append_left _ hm⟩
+
+/-- outcome of one transmit pass for the request in flight: it advances, or the transfer has failed -/
+def Outcome (s s' : State) (out : Option CanMsg) (r0 : Req) (p : Bytes) (k : Nat) : Prop :=
+  Advance s s' out r0 p k ∨ Failed s s' r0
+
+theorem txTail_inv (s : State) (a : Nat) (r0 : Req) (p : Bytes) (k : Nat)
+    (hv : s.cfg.valid = true) (hfr : Fresh r0 p) (hexc : s.exc = none) (hi : TxInv s r0 p k) :
+    Outcome s (txTail s a).1 (txTail s a).2.1 r0 p k := by
+  obtain ⟨c, hact⟩ := hi.active
+  unfold txTail
+  split
+  · exact Or.inr ((Aborted.stop s _ r0 c hact).failed_of_ext (txRest_idle_ext _ a (by simp)))
+  · exact Or.inl (txRest_inv s a r0 p k hv hfr hexc hi)
+
+theorem txMain_inv (s : State) (r0 : Req) (p : Bytes) (k : Nat)
+    (hv : s.cfg.valid = true) (hfr : Fresh r0 p) (hexc : s.exc = none)
+    (hi : TxInv s r0 p k) :
+    Outcome s (txMain s).1 (txMain s).2.1 r0 p k := by
+  obtain ⟨c, hact⟩ := hi.active
+  unfold txMain
+  have hi1 : TxInv { s with lastFc := none } r0 p k := TxSame.inv ⟨rfl, rfl, rfl, rfl, rfl, rfl, rfl, rfl⟩ _ _ _ hi
+  have hq0 : Quiet s { s with lastFc := none } := ⟨rfl, rfl, rfl, [], rfl, NoDone_nil⟩
+  have lift : ∀ s' out, Outcome { s with lastFc := none } s' out r0 p k → Outcome s s' out r0 p k := by
+    intro s' out h
+    rcases h with h | h
+    · exact Or.inl (Advance.of_quiet hq0 h)
+    · exact Or.inr (Failed.of_quiet hq0 h)
+  apply lift
+  cases hfc : s.lastFc with
+  | none => dsimp only; exact txTail_inv { s with lastFc := none } _ r0 p k hv hfr hexc hi1
+  | some f =>
+    dsimp only
+    split
+    · right
+      refine ⟨by simp [State.error, emit], by simp [State.error, emit], ?_⟩
+      refine ⟨[Ev.err s.now .Overflow, Ev.done r0.id false], ?_, by simp⟩
+      simp only [State.error, emit]
+      rw [stopSending_log ({ s with lastFc := none } : State) false (Req.adv r0 c) hact]
+      simp [Req.adv]
+    · rcases handleFc_inv { s with lastFc := none } f r0 p k hi1 with ⟨hi2, hq⟩ | hab
+      · have hv2 : (({ s with lastFc := none } : State).handleFc f).cfg.valid = true := by rw [hq.cfg]; exact hv
+        have hexc2 : (({ s with lastFc := none } : State).handleFc f).exc = none := by rw [hq.exc]; exact hexc
+        rcases txTail_inv _ (s.rl.allowedBytes s.cfg.rlBitMax) r0 p k hv2 hfr hexc2 hi2 with h | h
+        · exact Or.inl (Advance.of_quiet hq h)
+        · exact Or.inr (Failed.of_quiet hq h)
+      · exact Or.inr (hab.failed_of_ext (txTail_idle_ext _ _ hab.txState))
+
+
+theorem carried_one (tc : TxCfg) (n : Nat) (hv : ValidTx tc) (hff : NeedsFF tc n) : carried tc n 1 = ffRoom tc n := by
+  have := ffRoom_lt tc n hff hv
+  simp [carried]; omega
+
+/-- (C1) `startTx` on a fresh request builds frame 0 of the reference segmentation -/
+theorem startTx_adv (s : State) (r0 : Req) (a : Nat) (p : Bytes) (hv : s.cfg.valid = true) (hfr : Fresh r0 p)
+    (h1 : 1 ≤ p.length) (hn : p.length < 4294967296) :
+    Advance s (s.startTx r0 a).1 (s.startTx r0 a).2 r0 p 0 := by
+  have hvt := valid_of s.cfg s.addr hv
+  by_cases hff : NeedsFF (TxCfg.of s.cfg s.addr) p.length
+  · obtain ⟨d0, hd0, h | h⟩ := startTx_ff s r0 a p hv hfr.1 hfr.2 hn hff
+    · rw [h]; dsimp only
+      have hmsg : frameMsg s.cfg s.addr (s.addr.tx.txId .physical) d0 = msgFor s r0 p d0 := by simp [msgFor, arbId, hff]
+      refine Or.inr (Or.inl ⟨d0, hd0, by rw [hmsg], Or.inr ⟨Nat.le_refl 1, hff, carried_one_lt _ _ hvt hff, ?_, rfl, rfl,
+        Or.inl rfl⟩, ⟨rfl, rfl, rfl, _, rfl, NoDone_pullLog _ _⟩⟩)
+      dsimp only; rw [carried_one _ _ hvt hff]
+    · rw [h]; dsimp only
+      have hmsg : frameMsg s.cfg s.addr (s.addr.tx.txId .physical) d0 = msgFor s r0 p d0 := by simp [msgFor, arbId, hff]
+      refine Or.inl ⟨rfl, Or.inl ⟨rfl, d0, hd0, by dsimp only; rw [hmsg]; rfl, Or.inr ⟨rfl, hff, ?_, rfl, rfl⟩⟩,
+        ⟨rfl, rfl, rfl, _, rfl, NoDone_pullLog _ _⟩⟩
+      dsimp only; rw [carried_one _ _ hvt hff]
+  · have hsf : sfShort (TxCfg.of s.cfg s.addr) p.length ∨ sfEscape (TxCfg.of s.cfg s.addr) p.length := by
+      by_cases hs : sfShort (TxCfg.of s.cfg s.addr) p.length
+      · exact Or.inl hs
+      · by_cases he : sfEscape (TxCfg.of s.cfg s.addr) p.length
+        · exact Or.inr he
+        · exact absurd ⟨hs, he⟩ hff
+    obtain ⟨d0, hseg, h | h⟩ := startTx_sf s r0 a p hv hfr.1 hfr.2 h1 hsf
+    · rw [h]; dsimp only
+      have hmsg : frameMsg s.cfg s.addr (s.addr.tx.txId r0.tat) d0 = msgFor s r0 p d0 := by simp [msgFor, arbId, hff]
+      refine Or.inr (Or.inr ⟨d0, by simp [segOf, hseg], by simp [segOf, hseg], by rw [hmsg],
+        ⟨by simp, by simp, by simp, by simp, by simp, by simp, pullLog r0 p.length, ?_, NoDone_pullLog _ _⟩⟩)
+      rw [stopSending_log _ _ (Req.adv r0 p.length) rfl]; rfl
+    · rw [h]; dsimp only
+      have hmsg : frameMsg s.cfg s.addr (s.addr.tx.txId r0.tat) d0 = msgFor s r0 p d0 := by simp [msgFor, arbId, hff]
+      exact Or.inl ⟨rfl, Or.inl ⟨rfl, d0, by dsimp only; simp [hseg], by dsimp only; rw [hmsg]; rfl,
+        Or.inl ⟨rfl, hseg, hff, rfl⟩⟩, ⟨rfl, rfl, rfl, _, rfl, NoDone_pullLog _ _⟩⟩
+
+
+theorem Fresh.not_depleted {r0 : Req} {p : Bytes} (hfr : Fresh r0 p) (h1 : 1 ≤ p.length) : r0.depleted = false := by
+  have h1' := hfr.1.flag
+  have h2 := hfr.1.size
+  have h3 := hfr.2
+  unfold Req.depleted
+  rw [h1', h2, h3]
+  simp
+  intro h; rw [h] at h1; simp at h1
+
+theorem txRest_start (s : State) (a : Nat) (r0 : Req) (rest : List Req) (p : Bytes)
+    (hv : s.cfg.valid = true) (hfr : Fresh r0 p) (h1 : 1 ≤ p.length) (hn : p.length < 4294967296)
+    (hexc : s.exc = none) (hst : s.txState = .idle) (hq : s.txQueue = r0 :: rest) :
+    Advance s (txRest s a).1 (txRest s a).2.1 r0 p 0 := by
+  unfold txRest
+  simp only [hst, ne_eq, not_true_eq_false, decide_false, Bool.false_and, Bool.false_eq_true, if_false]
+  unfold txFsm
+  simp only [hst]
+  rw [hq]
+  unfold readTxQueue
+  simp only [hfr.not_depleted h1, Bool.false_eq_true, if_false]
+  have h := startTx_adv { s with txQueue := rest, active := some r0 } r0 a p hv hfr h1 hn
+  generalize State.startTx { s with txQueue := rest, active := some r0 } r0 a = X at h ⊢
+  obtain ⟨s1, out⟩ := X
+  have hq0 : Quiet s { s with txQueue := rest, active := some r0 } := ⟨rfl, rfl, rfl, [], rfl, NoDone_nil⟩
+  exact Advance.wrap false hexc (Advance.of_quiet hq0 h)
+
+/-- nothing happened to the (idle) transmit side except error reports -/
+structure StillIdle (s s' : State) : Prop where
+  txState : s'.txState = .idle
+  active : s'.active = none
+  txQueue : s'.txQueue = s.txQueue
+  quiet : Quiet s s'
+
+theorem StillIdle.stop_error (s : State) (e : Err) (_hst : s.txState = .idle) (hact : s.active = none) :
+    StillIdle s ((s.error e).stopSending false) := by
+  refine ⟨by simp, by simp, by simp [State.error, emit], by simp [State.error, emit], by simp [State.error, emit],
+    by simp [State.error, emit], [Ev.err s.now e], ?_, NoDone_err _ _⟩
+  simp [stopSending, State.error, emit, hact]
+
+theorem txTail_start (s : State) (a : Nat) (r0 : Req) (rest : List Req) (p : Bytes)
+    (hv : s.cfg.valid = true) (hfr : Fresh r0 p) (h1 : 1 ≤ p.length) (hn : p.length < 4294967296)
+    (hexc : s.exc = none) (hst : s.txState = .idle) (hact : s.active = none) (hq : s.txQueue = r0 :: rest) :
+    Advance s (txTail s a).1 (txTail s a).2.1 r0 p 0 := by
+  unfold txTail
+  split
+  · have hi := StillIdle.stop_error s .FlowControlTimeout hst hact
+    exact Advance.of_quiet hi.quiet (txRest_start _ a r0 rest p (by rw [hi.quiet.cfg]; exact hv) hfr h1 hn
+      (by rw [hi.quiet.exc]; exact hexc) hi.txState (by rw [hi.txQueue]; exact hq))
+  · exact txRest_start s a r0 rest p hv hfr h1 hn hexc hst hq
+
+/-- a transmit pass of an idle layer whose queue starts with the fresh request `r0` for payload `p`: it builds
+    frame 0 of the reference segmentation (emitted, or parked by the rate limiter), unless an Overflow Flow
+    Control was pending in the mailbox, in which case this pass only reports it. -/
+theorem txMain_start (s : State) (r0 : Req) (rest : List Req) (p : Bytes)
+    (hv : s.cfg.valid = true) (hfr : Fresh r0 p) (h1 : 1 ≤ p.length) (hn : p.length < 4294967296)
+    (hexc : s.exc = none)
+    (hst : s.txState = .idle) (hact : s.active = none) (hq : s.txQueue = r0 :: rest) :
+    Advance s (txMain s).1 (txMain s).2.1 r0 p 0 ∨ ((txMain s).2.1 = none ∧ StillIdle s (txMain s).1) := by
+  unfold txMain
+  have hq0 : Quiet s { s with lastFc := none } := ⟨rfl, rfl, rfl, [], rfl, NoDone_nil⟩
+  cases hfc : s.lastFc with
+  | none =>
+    dsimp only
+    exact Or.inl (Advance.of_quiet hq0 (txTail_start { s with lastFc := none } _ r0 rest p hv hfr h1 hn hexc hst hact hq))
+  | some f =>
+    dsimp only
+    split
+    · right
+      refine ⟨rfl, by simp [State.error, emit], by simp [State.error, emit], by simp [State.error, emit],
+        by simp [State.error, emit], by simp [State.error, emit], by simp [State.error, emit],
+        [Ev.err s.now .Overflow], ?_, NoDone_err _ _⟩
+      simp [stopSending, State.error, emit, hact]
+    · left
+      have hh : ({ s with lastFc := none } : State).handleFc f = ({ s with lastFc := none } : State).error .UnexpectedFlowControl := by
+        unfold handleFc; rw [if_pos hst]
+      rw [hh]
+      have hq1 : Quiet s (({ s with lastFc := none } : State).error .UnexpectedFlowControl) :=
+        ⟨rfl, rfl, rfl, [Ev.err s.now .UnexpectedFlowControl], rfl, NoDone_err _ _⟩
+      exact Advance.of_quiet hq1 (txTail_start _ _ r0 rest p hv hfr h1 hn hexc hst hact hq)
+
+/-! ### frame conditions (C4): the other operations leave the transmit progress alone -/
+
+theorem processRx_same (s : State) (m : CanMsg) : TxSame s (s.processRx m).1 := by
+  refine ⟨?_, ?_, ?_, ?_, ?_, ?_, ?_, ?_⟩ <;>
+  · unfold processRx startReception
+    grind [deliver, stopReceiving, State.error, emit, requestFc, startRxCfTimer]
+
+theorem checkTimeoutsRx_same (s : State) : TxSame s s.checkTimeoutsRx := by
+  unfold checkTimeoutsRx
+  split
+  · exact ⟨rfl, rfl, rfl, rfl, rfl, rfl, rfl, rfl⟩
+  · exact ⟨rfl, rfl, rfl, rfl, rfl, rfl, rfl, rfl⟩
+
+theorem send_same (s : State) (a : SendArgs) : TxSame s (s.send a).1 := by
+  unfold send
+  dsimp only
+  repeat' split
+  all_goals exact ⟨rfl, rfl, rfl, rfl, rfl, rfl, rfl, rfl⟩
+
+theorem recv_same (s : State) : TxSame s s.recv.1 := by
+  unfold recv
+  split <;> exact ⟨rfl, rfl, rfl, rfl, rfl, rfl, rfl, rfl⟩
+
+theorem advance_same (s : State) (dt : Nat) : TxSame s (s.advance dt) := ⟨rfl, rfl, rfl, rfl, rfl, rfl, rfl, rfl⟩
+
+theorem pushFrame_same (s : State) (dt : Nat) (m : CanMsg) : TxSame s (s.pushFrame dt m) :=
+  ⟨rfl, rfl, rfl, rfl, rfl, rfl, rfl, rfl⟩
+
+
+/-- the Flow Control frame the receive side asked for -/
+def fcMsg (s : State) (st : Nat) : CanMsg :=
+  frameMsg s.cfg s.addr (s.addr.tx.txId .physical)
+    (padFrame (TxCfg.of s.cfg s.addr) (s.addr.tx.txPrefix ++ fcData st s.cfg.blocksize s.cfg.stmin))
+
+theorem makeFlowControl_eq (s : State) (st : Nat) (hv : s.cfg.valid = true) :
+    makeFlowControl s.cfg s.addr st = some (fcMsg s st) := by
+  have hvt := valid_of s.cfg s.addr hv
+  have hdl := txDl_fix _ hvt
+  have hpre := hvt.pre
+  simp only [TxCfg.of] at hdl hpre
+  unfold makeFlowControl
+  rw [makeTxMsg_eq _ _ hv _ _ (by simp [fcData]) (by simp [fcData]; omega)]
+  rfl
+
+/-- a pass that sends the Flow Control requested by the receive side (not in listen mode) does not touch
+    the transmit progress -/
+theorem processTx_pending_same (s : State) (hp : s.pendingFc = true) (hl : s.cfg.listen = false) :
+    TxSame s s.processTx.1 := by
+  refine ⟨?_, ?_, ?_, ?_, ?_, ?_, ?_, ?_⟩ <;>
+  · unfold processTx
+    simp only [hp, if_true]
+    grind [startRxCfTimer, raise]
+
+theorem processTx_pending_out (s : State) (st : Nat) (hv : s.cfg.valid = true) (hp : s.pendingFc = true)
+    (hl : s.cfg.listen = false) (hst : s.pendingFcStatus = some st) :
+    s.processTx.2.1 = some (fcMsg s st) := by
+  unfold processTx
+  simp only [hp, if_true, hst]
+  by_cases h0 : st = 0
+  · subst h0
+    simp only [if_true, startRxCfTimer, hl, Bool.not_false]
+    rw [makeFlowControl_eq s 0 hv]
+  · simp only [h0, if_false, hl, Bool.not_false, if_true]
+    rw [makeFlowControl_eq s st hv]
+
+/-- the state after a pass that sends the requested Flow Control: only the request flag (and the N_Cr timer) change -/
+theorem processTx_pending_eq (s : State) (st : Nat) (hv : s.cfg.valid = true) (hp : s.pendingFc = true)
+    (hl : s.cfg.listen = false) (hst : s.pendingFcStatus = some st) :
+    s.processTx = ((if st = 0 then ({ s with pendingFc := false } : State).startRxCfTimer
+                    else { s with pendingFc := false }), some (fcMsg s st), true) := by
+  unfold processTx
+  simp only [hp, if_true, hst]
+  by_cases h0 : st = 0
+  · subst h0
+    simp only [if_true, startRxCfTimer, hl, Bool.not_false]
+    rw [makeFlowControl_eq s 0 hv]
+  · simp only [h0, if_false, hl, Bool.not_false, if_true]
+    rw [makeFlowControl_eq s st hv]
+
+/-! ### the pending-Flow-Control request survives transmit passes consistently -/
+
+/-- the "FC requested" flag and its status are untouched -/
+def FcSame (s s' : State) : Prop := s'.pendingFc = s.pendingFc ∧ s'.pendingFcStatus = s.pendingFcStatus
+
+theorem FcSame.refl (s : State) : FcSame s s := ⟨rfl, rfl⟩
+theorem FcSame.trans {a b c : State} (h1 : FcSame a b) (h2 : FcSame b c) : FcSame a c :=
+  ⟨h2.1.trans h1.1, h2.2.trans h1.2⟩
+
+theorem stopSending_fcSame (s : State) (b : Bool) : FcSame s (s.stopSending b) := by
+  unfold stopSending FcSame; cases s.active <;> exact ⟨rfl, rfl⟩
+
+theorem startTx_fcSame (s : State) (r : Req) (a : Nat) : FcSame s (s.startTx r a).1 := by
+  constructor
+  · unfold startTx consumeActive
+    grind [stopSending, State.error, emit, raise, startRxFcTimer]
+  · unfold startTx consumeActive
+    grind [stopSending, State.error, emit, raise, startRxFcTimer]
+
+theorem transmitCf_fcSame (s : State) (a : Nat) : FcSame s (s.transmitCf a).1 := by
+  constructor
+  · unfold transmitCf consumeActive
+    grind [stopSending, State.error, emit, raise, startRxFcTimer]
+  · unfold transmitCf consumeActive
+    grind [stopSending, State.error, emit, raise, startRxFcTimer]
+
+theorem readTxQueue_fcSame (a : Nat) (q : List Req) : ∀ s : State, FcSame s (s.readTxQueue a q).1 := by
+  induction q with
+  | nil => intro s; exact ⟨rfl, rfl⟩
+  | cons r rest ih =>
+    intro s
+    unfold readTxQueue
+    dsimp only
+    split
+    · refine FcSame.trans ?_ (ih _)
+      exact ⟨rfl, rfl⟩
+    · refine FcSame.trans ?_ (startTx_fcSame _ r a)
+      exact ⟨rfl, rfl⟩
+
+theorem handleFc_fcSame (s : State) (f : FcFrame) : FcSame s (s.handleFc f) := by
+  constructor
+  · unfold handleFc
+    grind [stopSending, State.error, emit, startRxFcTimer]
+  · unfold handleFc
+    grind [stopSending, State.error, emit, startRxFcTimer]
+
+theorem standby_fcSame (s : State) (a : Nat) :
+    FcSame s (match s.standby with
+      | some msg =>
+        if msg.data.length ≤ a then
+          let s := { s with standby := none }
+          if s.txState = .ffStandby then
+            (({ s.startRxFcTimer with txState := .waitFc }), some msg, false)
+          else (s.stopSending true, some msg, false)
+        else (s, none, false)
+      | none => (s, none, false) : State × Option CanMsg × Bool).1 := by
+  cases s.standby with
+  | none => exact ⟨rfl, rfl⟩
+  | some msg =>
+    dsimp only
+    split
+    · split
+      · exact ⟨rfl, rfl⟩
+      · exact FcSame.trans ⟨rfl, rfl⟩ (stopSending_fcSame _ _)
+    · exact ⟨rfl, rfl⟩
+
+theorem txFsm_fcSame (s : State) (a : Nat) : FcSame s (txFsm s a).1 := by
+  unfold txFsm
+  split
+  · exact readTxQueue_fcSame a s.txQueue s
+  · exact standby_fcSame s a
+  · exact standby_fcSame s a
+  · exact ⟨rfl, rfl⟩
+  · exact transmitCf_fcSame s a
+
+theorem txRest_core_fcSame (s : State) (a : Nat) (c : Bool) :
+    FcSame s (let s := if c then s.stopSending true else s
+      let (s, out, imm) := txFsm s a
+      if s.exc.isSome then (s, none, false) else
+      match out with
+      | some msg => ({ s with rl := s.rl.inform s.now msg.data.length }, some msg, imm)
+      | none => (s, none, imm) : State × Option CanMsg × Bool).1 := by
+  dsimp only
+  have h1 : FcSame s (if c = true then s.stopSending true else s) := by
+    cases c
+    · exact FcSame.refl s
+    · exact stopSending_fcSame _ _
+  refine FcSame.trans h1 ?_
+  generalize (if c = true then s.stopSending true else s) = s1
+  have h2 := txFsm_fcSame s1 a
+  generalize txFsm s1 a = X at h2 ⊢
+  obtain ⟨s2, out, imm⟩ := X
+  dsimp only at h2 ⊢
+  split
+  · exact h2
+  · split
+    · exact FcSame.trans h2 ⟨rfl, rfl⟩
+    · exact h2
+
+theorem txRest_fcSame (s : State) (a : Nat) : FcSame s (txRest s a).1 := by
+  unfold txRest
+  split
+  · exact ⟨rfl, rfl⟩
+  · exact txRest_core_fcSame s a _
+
+theorem txTail_fcSame (s : State) (a : Nat) : FcSame s (txTail s a).1 := by
+  unfold txTail
+  split
+  · exact FcSame.trans (FcSame.trans (⟨rfl, rfl⟩ : FcSame s (s.error .FlowControlTimeout)) (stopSending_fcSame _ _))
+      (txRest_fcSame _ a)
+  · exact txRest_fcSame s a
+
+
+/-! ### shape of the reference segmentation (part B) -/
+
+theorem chunksAux_flatten (k : Nat) (hk : 1 ≤ k) (f : Nat) : ∀ (l : Bytes), l.length ≤ f →
+    (chunksAux k f l).flatten = l := by
+  induction f with
+  | zero =>
+    intro l hl
+    have : l = [] := List.eq_nil_of_length_eq_zero (by omega)
+    subst this; rfl
+  | succ f ih =>
+    intro l hl
+    unfold chunksAux
+    by_cases he : l.isEmpty = true
+    · have : l = [] := by simpa using he
+      subst this; rfl
+    · simp only [he, Bool.false_eq_true, if_false, List.flatten_cons]
+      have hpos : 0 < l.length := by
+        cases l with
+        | nil => simp at he
+        | cons => simp
+      rw [ih (l.drop k) (by simp; omega), List.take_append_drop]
+
+/-- the pieces put back together give the payload -/
+theorem chunks_flatten (k : Nat) (hk : 1 ≤ k) (l : Bytes) : (chunks k l).flatten = l :=
+  chunksAux_flatten k hk l.length l (Nat.le_refl _)
+
+/-- every piece has 1..k bytes; every piece but the last has exactly k bytes -/
+theorem chunks_piece (k : Nat) (hk : 1 ≤ k) (l : Bytes) (i : Nat) (c : Bytes) (h : (chunks k l)[i]? = some c) :
+    1 ≤ c.length ∧ c.length ≤ k ∧ ((chunks k l)[i + 1]? ≠ none → c.length = k) := by
+  rw [chunks_getElem? k hk] at h
+  rw [chunks_getElem? k hk]
+  split at h
+  · rename_i hlt
+    cases h
+    simp only [List.length_take, List.length_drop]
+    refine ⟨by omega, by omega, ?_⟩
+    intro h2
+    split at h2
+    · rename_i h3; rw [Nat.succ_mul] at h3; omega
+    · exact absurd rfl h2
+  · cases h
+
+theorem frame_len_ok (tc : TxCfg) (hv : ValidTx tc) (x : Bytes) (hx : x.length ≤ tc.txDl) :
+    legal (padFrame tc x).length ∧ (padFrame tc x).length ≤ tc.txDl ∧ x <+: padFrame tc x := by
+  rw [length_padFrame]
+  exact ⟨padTarget_legal tc hv _ hx, padTarget_le tc hv _ hx, by unfold padFrame; exact List.prefix_append _ _⟩
+
+/-- (B1) every frame of the reference segmentation has a legal CAN (FD) length not above `tx_data_length`
+    and starts with the address prefix -/
+theorem segment_frames_legal (tc : TxCfg) (hv : ValidTx tc) (p : Bytes) (d : Bytes) (hd : d ∈ segment tc p) :
+    legal d.length ∧ d.length ≤ tc.txDl ∧ tc.pre <+: d := by
+  have hdl := txDl_fix tc hv
+  have hpre := hv.pre
+  have key : ∀ x : Bytes, x.length ≤ tc.txDl → tc.pre <+: x → d = padFrame tc x →
+      legal d.length ∧ d.length ≤ tc.txDl ∧ tc.pre <+: d := by
+    intro x hx hp he
+    subst he
+    obtain ⟨h1, h2, h3⟩ := frame_len_ok tc hv x hx
+    exact ⟨h1, h2, List.IsPrefix.trans hp h3⟩
+  by_cases hs : sfShort tc p.length
+  · rw [segment_sfShort tc p hs] at hd
+    have hs' := (sfShort_iff tc p.length).mp hs
+    exact key (tc.pre ++ [UInt8.ofNat p.length] ++ p) (by simp; omega) (by simp [List.append_assoc])
+      (by simpa using hd)
+  · by_cases he : sfEscape tc p.length
+    · rw [segment_sfEscape tc p he] at hd
+      have he' := he.2
+      exact key (tc.pre ++ [0x00, UInt8.ofNat p.length] ++ p) (by simp; omega) (by simp [List.append_assoc])
+        (by simpa using hd)
+    · have hff : NeedsFF tc p.length := ⟨hs, he⟩
+      obtain ⟨i, hi⟩ := List.mem_iff_getElem?.mp hd
+      cases i with
+      | zero =>
+        rw [segment_ff_zero tc p hff] at hi
+        have hlt := ffRoom_lt tc p.length hff hv
+        refine key _ ?_ (by simp [List.append_assoc]) (Option.some.inj hi).symm
+        simp only [List.length_append, List.length_take]
+        unfold ffHeader ffRoom be32
+        split <;> simp <;> omega
+      | succ j =>
+        rw [segment_ff_succ tc hv p hff (j + 1) (by omega)] at hi
+        split at hi
+        · refine key _ ?_ (by simp [List.append_assoc]) (Option.some.inj hi).symm
+          simp only [List.length_append, List.length_take, List.length_cons, List.length_nil]
+          unfold cfRoom; omega
+        · cases hi
+
+/-- (B2) one frame exactly when the payload fits a Single Frame -/
+theorem segment_single_iff (tc : TxCfg) (hv : ValidTx tc) (p : Bytes) :
+    (segment tc p).length = 1 ↔ (sfShort tc p.length ∨ sfEscape tc p.length) := by
+  constructor
+  · intro h
+    by_cases hs : sfShort tc p.length
+    · exact Or.inl hs
+    · by_cases he : sfEscape tc p.length
+      · exact Or.inr he
+      · exfalso
+        have hff : NeedsFF tc p.length := ⟨hs, he⟩
+        have h1 := segment_ff_succ tc hv p hff 1 (Nat.le_refl 1)
+        rw [if_pos (carried_one_lt tc _ hv hff)] at h1
+        have : (segment tc p)[1]? = none := List.getElem?_eq_none_iff.mpr (by omega)
+        rw [this] at h1; cases h1
+  · rintro (h | h)
+    · rw [segment_sfShort tc p h]; rfl
+    · rw [segment_sfEscape tc p h]; rfl
+
+/-- (B3) the First Frame carries the first `ffRoom` bytes and the Consecutive Frame pieces are the rest, in order -/
+theorem segment_payload (tc : TxCfg) (hv : ValidTx tc) (p : Bytes) :
+    p.take (ffRoom tc p.length) ++ (chunks (cfRoom tc) (p.drop (ffRoom tc p.length))).flatten = p := by
+  rw [chunks_flatten _ (cfRoom_pos tc hv), List.take_append_drop]
+
+/-! ### `processTx` for every state of the pending-Flow-Control flag -/
+
+/-- a requested Flow Control always has a status (`pending_flow_control_status` exists) -/
+def FcOk (s : State) : Prop := s.pendingFc = true → s.pendingFcStatus.isSome = true
+
+/-- `true` when the next transmit pass only sends the Flow Control requested by the receive side -/
+def fcPass (s : State) : Bool := s.pendingFc && !s.cfg.listen
+
+/-- the pending-FC bookkeeping done at the top of `_process_tx` -/
+def afterFcReq (s : State) (st : Nat) : State :=
+  if st = 0 then ({ s with pendingFc := false } : State).startRxCfTimer else { s with pendingFc := false }
+
+theorem afterFcReq_same (s : State) (st : Nat) : TxSame s (afterFcReq s st) := by
+  unfold afterFcReq; split <;> exact ⟨rfl, rfl, rfl, rfl, rfl, rfl, rfl, rfl⟩
+
+theorem afterFcReq_quiet (s : State) (st : Nat) : Quiet s (afterFcReq s st) := by
+  unfold afterFcReq; split <;> exact ⟨rfl, rfl, rfl, [], rfl, NoDone_nil⟩
+
+theorem afterFcReq_pending (s : State) (st : Nat) : (afterFcReq s st).pendingFc = false := by
+  unfold afterFcReq; split <;> rfl
+
+theorem afterFcReq_queue (s : State) (st : Nat) :
+    (afterFcReq s st).txQueue = s.txQueue ∧ (afterFcReq s st).lastFc = s.lastFc ∧ (afterFcReq s st).rl = s.rl := by
+  unfold afterFcReq; split <;> exact ⟨rfl, rfl, rfl⟩
+
+/-- the pass runs the data part of `_process_tx` on state `s1` (`s` itself, or `s` after the listen-mode
+    bookkeeping of a requested Flow Control) -/
+theorem processTx_data (s : State) (hfc : FcOk s) (hd : fcPass s = false) :
+    ∃ s1, s.processTx = txMain s1 ∧ TxSame s s1 ∧ Quiet s s1 ∧ s1.txQueue = s.txQueue ∧ s1.pendingFc = false := by
+  by_cases hp : s.pendingFc = true
+  · have hl : s.cfg.listen = true := by simpa [fcPass, hp] using hd
+    obtain ⟨st, hst⟩ := Option.isSome_iff_exists.mp (hfc hp)
+    exact ⟨afterFcReq s st, processTx_listen s st hp hl hst, afterFcReq_same s st, afterFcReq_quiet s st,
+      (afterFcReq_queue s st).1, afterFcReq_pending s st⟩
+  · have hp' : s.pendingFc = false := by simpa using hp
+    exact ⟨s, processTx_eq_main s hp', ⟨rfl, rfl, rfl, rfl, rfl, rfl, rfl, rfl⟩, Quiet.refl s, rfl, hp'⟩
+
+theorem Outcome.of_quiet {s s1 s' : State} {out : Option CanMsg} {r0 : Req} {p : Bytes} {k : Nat}
+    (hq : Quiet s s1) (h : Outcome s1 s' out r0 p k) : Outcome s s' out r0 p k := by
+  rcases h with h | h
+  · exact Or.inl (Advance.of_quiet hq h)
+  · exact Or.inr (Failed.of_quiet hq h)
+
+/-- (C3) a data pass of `_process_tx` while `k` frames of `p` are out -/
+theorem processTx_inv (s : State) (r0 : Req) (p : Bytes) (k : Nat)
+    (hv : s.cfg.valid = true) (hfr : Fresh r0 p) (hexc : s.exc = none) (hfc : FcOk s) (hd : fcPass s = false)
+    (hi : TxInv s r0 p k) :
+    Outcome s s.processTx.1 s.processTx.2.1 r0 p k := by
+  obtain ⟨s1, he, hsame, hq, -, -⟩ := processTx_data s hfc hd
+  rw [he]
+  exact Outcome.of_quiet hq (txMain_inv s1 r0 p k (by rw [hq.cfg]; exact hv) hfr (by rw [hq.exc]; exact hexc)
+    (hsame.inv _ _ _ hi))
+
+theorem StillIdle.of_quiet {s s1 s' : State} (hq : Quiet s s1) (hqq : s1.txQueue = s.txQueue) (h : StillIdle s1 s') :
+    StillIdle s s' :=
+  ⟨h.txState, h.active, h.txQueue.trans hqq, hq.trans h.quiet⟩
+
+/-- (C3, start) a data pass of an idle layer whose queue starts with the fresh request `r0` -/
+theorem processTx_start (s : State) (r0 : Req) (rest : List Req) (p : Bytes)
+    (hv : s.cfg.valid = true) (hfr : Fresh r0 p) (h1 : 1 ≤ p.length) (hn : p.length < 4294967296)
+    (hexc : s.exc = none) (hfc : FcOk s) (hd : fcPass s = false)
+    (hst : s.txState = .idle) (hact : s.active = none) (hq : s.txQueue = r0 :: rest) :
+    Advance s s.processTx.1 s.processTx.2.1 r0 p 0 ∨ (s.processTx.2.1 = none ∧ StillIdle s s.processTx.1) := by
+  obtain ⟨s1, he, hsame, hqu, hqq, -⟩ := processTx_data s hfc hd
+  rw [he]
+  rcases txMain_start s1 r0 rest p (by rw [hqu.cfg]; exact hv) hfr h1 hn (by rw [hqu.exc]; exact hexc)
+    (by rw [hsame.txState]; exact hst) (by rw [hsame.active]; exact hact) (by rw [hqq]; exact hq) with h | ⟨h, h'⟩
+  · exact Or.inl (Advance.of_quiet hqu h)
+  · exact Or.inr ⟨h, StillIdle.of_quiet hqu hqq h'⟩
+
+/-- (C3, FC pass) a pass that sends the requested Flow Control leaves the transfer where it was -/
+theorem processTx_fc (s : State) (hv : s.cfg.valid = true) (hfc : FcOk s) (hd : fcPass s = true) :
+    ∃ st, s.pendingFcStatus = some st ∧ s.processTx = (afterFcReq s st, some (fcMsg s st), true) := by
+  have hp : s.pendingFc = true := by
+    cases h : s.pendingFc
+    · simp [fcPass, h] at hd
+    · rfl
+  have hl : s.cfg.listen = false := by simpa [fcPass, hp] using hd
+  obtain ⟨st, hst⟩ := Option.isSome_iff_exists.mp (hfc hp)
+  exact ⟨st, hst, processTx_pending_eq s st hv hp hl hst⟩
+
+theorem txMain_fcSame (s : State) : FcSame s (txMain s).1 := by
+  unfold txMain
+  have h0 : FcSame s { s with lastFc := none } := ⟨rfl, rfl⟩
+  cases s.lastFc with
+  | none => exact FcSame.trans h0 (txTail_fcSame _ _)
+  | some f =>
+    dsimp only
+    split
+    · have h1 := stopSending_fcSame { s with lastFc := none } false
+      have h2 : FcSame (({ s with lastFc := none } : State).stopSending false)
+        ((({ s with lastFc := none } : State).stopSending false).error .Overflow) := ⟨rfl, rfl⟩
+      exact FcSame.trans h0 (FcSame.trans h1 h2)
+    · exact FcSame.trans h0 (FcSame.trans (handleFc_fcSame _ f) (txTail_fcSame _ _))
+
+theorem processTx_fcOk (s : State) (hv : s.cfg.valid = true) (h : FcOk s) : FcOk s.processTx.1 := by
+  by_cases hd : fcPass s = true
+  · obtain ⟨st, -, he⟩ := processTx_fc s hv h hd
+    rw [he]
+    intro h2; rw [afterFcReq_pending] at h2; cases h2
+  · obtain ⟨s1, he, -, -, -, hp1⟩ := processTx_data s h (by simpa using hd)
+    rw [he]
+    intro h2; rw [(txMain_fcSame s1).1, hp1] at h2; cases h2
+
+
+/-! ### runs of the single-threaded API -/
+
+/-- operations of the public API other than a transmit pass -/
+inductive Op where
+  | rx (m : CanMsg)              -- `_process_rx(m)`
+  | timeouts                     -- `_check_timeouts_rx()`
+  | send (a : SendArgs)
+  | recv
+  | advance (dt : Nat)           -- time passes
+  | push (dt : Nat) (m : CanMsg) -- a frame arrives on the bus side
+
+def Op.apply (s : State) : Op → State
+  | .rx m => (s.processRx m).1
+  | .timeouts => s.checkTimeoutsRx
+  | .send a => (s.send a).1
+  | .recv => s.recv.1
+  | .advance dt => s.advance dt
+  | .push dt m => s.pushFrame dt m
+
+theorem Op.same (s : State) (o : Op) : TxSame s (o.apply s) := by
+  cases o
+  · exact processRx_same s _
+  · exact checkTimeoutsRx_same s
+  · exact send_same s _
+  · exact recv_same s
+  · exact advance_same s _
+  · exact pushFrame_same s _ _
+
+theorem Op.exc (s : State) (o : Op) : (o.apply s).exc = s.exc := by
+  cases o
+  · show (s.processRx _).1.exc = s.exc
+    unfold processRx startReception
+    grind [deliver, stopReceiving, State.error, emit, requestFc, startRxCfTimer]
+  · show s.checkTimeoutsRx.exc = s.exc
+    unfold checkTimeoutsRx; split <;> rfl
+  · show (s.send _).1.exc = s.exc
+    unfold State.send; dsimp only; repeat' split
+    all_goals rfl
+  · show s.recv.1.exc = s.exc
+    unfold State.recv; split <;> rfl
+  · rfl
+  · rfl
+
+theorem Op.fcOk (s : State) (o : Op) (h : FcOk s) : FcOk (o.apply s) := by
+  cases o
+  · show FcOk (s.processRx _).1
+    unfold FcOk at *
+    unfold processRx startReception
+    grind [deliver, stopReceiving, State.error, emit, requestFc, startRxCfTimer]
+  · show FcOk s.checkTimeoutsRx
+    unfold FcOk at *
+    unfold checkTimeoutsRx; split
+    · intro h2; cases h2
+    · exact h
+  · show FcOk (s.send _).1
+    unfold State.send; dsimp only; repeat' split
+    all_goals exact h
+  · show FcOk s.recv.1
+    unfold State.recv; split <;> exact h
+  · exact h
+  · exact h
+
+
+/-- request `r0` is at the head of the transmit queue of an idle layer -/
+def TxQueued (s : State) (r0 : Req) : Prop := s.txState = .idle ∧ s.active = none ∧ ∃ rest, s.txQueue = r0 :: rest
+
+/-- `k` frames of `p` are out: the request is still queued (k = 0), or in flight -/
+def TxInv0 (s : State) (r0 : Req) (p : Bytes) (k : Nat) : Prop := (k = 0 ∧ TxQueued s r0) ∨ TxInv s r0 p k
+
+/-- outcome of one data pass of `_process_tx` for request `r0` (payload `p`, `k` frames out): nothing emitted; or
+    frame `k` emitted and more to come; or frame `k` was the last one and the request completed; or the transfer failed -/
+def Pass (s s' : State) (out : Option CanMsg) (r0 : Req) (p : Bytes) (k : Nat) : Prop :=
+  (out = none ∧ TxInv0 s' r0 p k ∧ Quiet s s') ∨
+  (∃ d, (segOf s p)[k]? = some d ∧ out = some (msgFor s r0 p d) ∧ TxInv0 s' r0 p (k + 1) ∧ Quiet s s') ∨
+  (∃ d, (segOf s p)[k]? = some d ∧ (segOf s p).length = k + 1 ∧ out = some (msgFor s r0 p d) ∧ Finished s s' r0) ∨
+  Failed s s' r0
+
+theorem Advance.pass {s s' : State} {out : Option CanMsg} {r0 : Req} {p : Bytes} {k : Nat}
+    (h : Advance s s' out r0 p k) : Pass s s' out r0 p k := by
+  rcases h with ⟨h1, h2, h3⟩ | ⟨d, h1, h2, h3, h4⟩ | h
+  · exact Or.inl ⟨h1, Or.inr h2, h3⟩
+  · exact Or.inr (Or.inl ⟨d, h1, h2, Or.inr h3, h4⟩)
+  · exact Or.inr (Or.inr (Or.inl h))
+
+/-- (C3) every data pass of `_process_tx`, from the moment the request is at the head of the queue -/
+theorem processTx_pass (s : State) (r0 : Req) (p : Bytes) (k : Nat)
+    (hv : s.cfg.valid = true) (hfr : Fresh r0 p) (h1 : 1 ≤ p.length) (hn : p.length < 4294967296)
+    (hexc : s.exc = none) (hfc : FcOk s) (hd : fcPass s = false) (hi : TxInv0 s r0 p k) :
+    Pass s s.processTx.1 s.processTx.2.1 r0 p k := by
+  rcases hi with ⟨hk, hst, hact, rest, hq⟩ | hi
+  · subst hk
+    rcases processTx_start s r0 rest p hv hfr h1 hn hexc hfc hd hst hact hq with h | ⟨h, h'⟩
+    · exact h.pass
+    · exact Or.inl ⟨h, Or.inl ⟨rfl, h'.txState, h'.active, rest, by rw [h'.txQueue]; exact hq⟩, h'.quiet⟩
+  · rcases processTx_inv s r0 p k hv hfr hexc hfc hd hi with h | h
+    · exact h.pass
+    · exact Or.inr (Or.inr (Or.inr h))
+
+theorem Op.queue (s : State) (o : Op) : ∃ more, (o.apply s).txQueue = s.txQueue ++ more := by
+  cases o
+  · refine ⟨[], ?_⟩
+    show (s.processRx _).1.txQueue = s.txQueue ++ []
+    rw [List.append_nil]
+    unfold processRx startReception
+    grind [deliver, stopReceiving, State.error, emit, requestFc, startRxCfTimer]
+  · refine ⟨[], ?_⟩
+    show s.checkTimeoutsRx.txQueue = s.txQueue ++ []
+    unfold checkTimeoutsRx; split <;> simp [stopReceiving, State.error, emit]
+  · show ∃ more, (s.send _).1.txQueue = s.txQueue ++ more
+    unfold State.send; dsimp only; repeat' split
+    all_goals first | exact ⟨[], (List.append_nil _).symm⟩ | exact ⟨[_], rfl⟩
+  · refine ⟨[], ?_⟩
+    show s.recv.1.txQueue = s.txQueue ++ []
+    unfold State.recv; split <;> simp
+  · exact ⟨[], (List.append_nil _).symm⟩
+  · exact ⟨[], (List.append_nil _).symm⟩
+
+theorem Op.inv0 (s : State) (o : Op) (r0 : Req) (p : Bytes) (k : Nat) (hi : TxInv0 s r0 p k) :
+    TxInv0 (o.apply s) r0 p k := by
+  rcases hi with ⟨hk, hst, hact, rest, hq⟩ | hi
+  · obtain ⟨more, hm⟩ := Op.queue s o
+    exact Or.inl ⟨hk, (Op.same s o).txState.trans hst, (Op.same s o).active.trans hact, rest ++ more,
+      by rw [hm, hq]; rfl⟩
+  · exact Or.inr ((Op.same s o).inv _ _ _ hi)
+
+theorem afterFcReq_inv0 (s : State) (st : Nat) (r0 : Req) (p : Bytes) (k : Nat) (hi : TxInv0 s r0 p k) :
+    TxInv0 (afterFcReq s st) r0 p k := by
+  rcases hi with ⟨hk, hst, hact, rest, hq⟩ | hi
+  · exact Or.inl ⟨hk, (afterFcReq_same s st).txState.trans hst, (afterFcReq_same s st).active.trans hact, rest,
+      by rw [(afterFcReq_queue s st).1]; exact hq⟩
+  · exact Or.inr ((afterFcReq_same s st).inv _ _ _ hi)
+
+inductive Step where
+  | tx            -- one `_process_tx` pass (its message, if any, goes to the CAN layer)
+  | op (o : Op)
+
+/-- run a sequence of API steps; collects the *data* frames handed to the CAN layer (the output of a pass that
+    only sends the Flow Control requested by the receive side is not collected) -/
+def run : List Step → State → State × List CanMsg
+  | [], s => (s, [])
+  | .tx :: rest, s =>
+    let o := if fcPass s then none else s.processTx.2.1
+    let r := run rest s.processTx.1
+    (r.1, o.toList ++ r.2)
+  | .op o :: rest, s => run rest (o.apply s)
+
+/-- the layer still has the configuration of `s0`, has not raised, and its FC request flag is consistent -/
+structure Live (s0 s : State) : Prop where
+  cfg : s.cfg = s0.cfg
+  addr : s.addr = s0.addr
+  exc : s.exc = none
+  fcOk : FcOk s
+
+/-- `outs` are exactly the frames number `k, k+1, …` of the reference segmentation of `p`, as CAN messages -/
+def Sent (s0 : State) (r0 : Req) (p : Bytes) (k : Nat) (outs : List CanMsg) : Prop :=
+  outs = (((segOf s0 p).drop k).take outs.length).map (msgFor s0 r0 p)
+
+/-- what a run can have done to the transfer of `p` that had `k` frames out: still in flight with exactly the next
+    frames emitted; or it ended at some transmit pass, before which it was in flight, and that pass either emitted
+    the last frame (so that all frames from `k` on have been emitted, in order) and completed the request, or the
+    transfer failed. -/
+def RunRes (s0 : State) (r0 : Req) (p : Bytes) (k : Nat) (steps : List Step) (s : State) : Prop :=
+  (TxInv0 (run steps s).1 r0 p (k + (run steps s).2.length) ∧ Live s0 (run steps s).1 ∧ Sent s0 r0 p k (run steps s).2) ∨
+  (∃ pre post, steps = pre ++ Step.tx :: post ∧
+     TxInv0 (run pre s).1 r0 p (k + (run pre s).2.length) ∧ Live s0 (run pre s).1 ∧ Sent s0 r0 p k (run pre s).2 ∧
+     fcPass (run pre s).1 = false ∧
+     ((∃ d, (run pre s).1.processTx.2.1 = some (msgFor s0 r0 p d) ∧
+          (run pre s).2 ++ [msgFor s0 r0 p d] = ((segOf s0 p).drop k).map (msgFor s0 r0 p) ∧
+          Finished (run pre s).1 (run pre s).1.processTx.1 r0)
+      ∨ Failed (run pre s).1 (run pre s).1.processTx.1 r0))
+
+theorem drop_of_getElem? {α : Type} (l : List α) (k : Nat) (d : α) (h : l[k]? = some d) :
+    l.drop k = d :: l.drop (k + 1) := by
+  obtain ⟨hk, hd⟩ := List.getElem?_eq_some_iff.mp h
+  rw [List.drop_eq_getElem_cons hk, hd]
+
+/-- lifting through a step that emits nothing and keeps the transfer where it is -/
+theorem RunRes.skip {s0 : State} {r0 : Req} {p : Bytes} {k : Nat} {st : Step} {rest : List Step} {s s1 : State}
+    (hrun : ∀ l, run (st :: l) s = run l s1) (h : RunRes s0 r0 p k rest s1) : RunRes s0 r0 p k (st :: rest) s := by
+  rcases h with h | ⟨pre, post, he, h⟩
+  · left; rw [hrun]; exact h
+  · right
+    refine ⟨st :: pre, post, by rw [he]; rfl, ?_⟩
+    rw [hrun]; exact h
+
+/-- lifting through a transmit pass that emits frame `k` -/
+theorem RunRes.emit {s0 : State} {r0 : Req} {p : Bytes} {k : Nat} {rest : List Step} {s s1 : State} {d : Bytes}
+    (hd : (segOf s0 p)[k]? = some d)
+    (hrun : ∀ l, run (Step.tx :: l) s = ((run l s1).1, msgFor s0 r0 p d :: (run l s1).2))
+    (h : RunRes s0 r0 p (k + 1) rest s1) : RunRes s0 r0 p k (Step.tx :: rest) s := by
+  have hdrop := drop_of_getElem? _ _ _ hd
+  rcases h with ⟨h1, h2, h3⟩ | ⟨pre, post, he, h1, h2, h3, h4, h5⟩
+  · left
+    rw [hrun]
+    refine ⟨by simpa [Nat.add_assoc, Nat.add_comm 1] using h1, h2, ?_⟩
+    unfold Sent at h3 ⊢
+    simp only [List.length_cons, hdrop, List.take_succ_cons, List.map_cons]
+    rw [← h3]
+  · right
+    refine ⟨Step.tx :: pre, post, by rw [he]; rfl, ?_⟩
+    rw [hrun]
+    refine ⟨by simpa [Nat.add_assoc, Nat.add_comm 1] using h1, h2, ?_, h4, ?_⟩
+    · unfold Sent at h3 ⊢
+      simp only [List.length_cons, hdrop, List.take_succ_cons, List.map_cons]
+      rw [← h3]
+    · rcases h5 with ⟨d', hd1, hd2, hd3⟩ | h5
+      · left
+        refine ⟨d', hd1, ?_, hd3⟩
+        simp only [hdrop, List.map_cons, List.cons_append]
+        rw [hd2]
+      · exact Or.inr h5
+
+
+theorem Live.segOf {s0 s : State} (h : Live s0 s) (p : Bytes) : segOf s p = segOf s0 p := by
+  simp only [Proofs.segOf, h.cfg, h.addr]
+
+theorem Live.msgFor {s0 s : State} (h : Live s0 s) (r0 : Req) (p d : Bytes) : msgFor s r0 p d = msgFor s0 r0 p d := by
+  simp only [Proofs.msgFor, arbId, h.cfg, h.addr]
+
+theorem Live.of_quiet {s0 s s' : State} (h : Live s0 s) (hq : Quiet s s') (hf : FcOk s') : Live s0 s' :=
+  ⟨hq.cfg.trans h.cfg, hq.addr.trans h.addr, hq.exc.trans h.exc, hf⟩
+
+/-- (C3, runs) from the moment the request for `p` is at the head of the queue, whatever the API does, the data frames
+    handed to the CAN layer are exactly the next frames of the reference segmentation, in order, until the transfer
+    completes (then all of them have been emitted) or fails. -/
+theorem run_segment (s0 : State) (r0 : Req) (p : Bytes) (hv : s0.cfg.valid = true) (hfr : Fresh r0 p)
+    (h1 : 1 ≤ p.length) (hn : p.length < 4294967296) :
+    ∀ (steps : List Step) (s : State) (k : Nat), Live s0 s → TxInv0 s r0 p k → RunRes s0 r0 p k steps s := by
+  intro steps
+  induction steps with
+  | nil =>
+    intro s k hl hi
+    exact Or.inl ⟨hi, hl, by simp [Sent, run]⟩
+  | cons st rest ih =>
+    intro s k hl hi
+    have hvs : s.cfg.valid = true := by rw [hl.cfg]; exact hv
+    cases st with
+    | op o =>
+      refine RunRes.skip (s1 := o.apply s) (fun l => rfl) (ih _ k ?_ (Op.inv0 s o r0 p k hi))
+      exact ⟨(Op.same s o).cfg.trans hl.cfg, (Op.same s o).addr.trans hl.addr, (Op.exc s o).trans hl.exc,
+        Op.fcOk s o hl.fcOk⟩
+    | tx =>
+      have hfc' := processTx_fcOk s hvs hl.fcOk
+      by_cases hd : fcPass s = true
+      · obtain ⟨stt, -, he⟩ := processTx_fc s hvs hl.fcOk hd
+        have hs1 : s.processTx.1 = afterFcReq s stt := by rw [he]
+        refine RunRes.skip (s1 := afterFcReq s stt) ?_ (ih _ k ?_ (afterFcReq_inv0 s stt r0 p k hi))
+        · intro l
+          simp only [run, hd, if_true, Option.toList_none, List.nil_append, hs1]
+        · exact hl.of_quiet (afterFcReq_quiet s stt) (by rw [← hs1]; exact hfc')
+      · have hd' : fcPass s = false := by simpa using hd
+        rcases processTx_pass s r0 p k hvs hfr h1 hn hl.exc hl.fcOk hd' hi with
+          ⟨ho, hi1, hq⟩ | ⟨d, hdk, ho, hi1, hq⟩ | ⟨d, hdk, hlen, ho, hfin⟩ | hfail
+        · refine RunRes.skip (s1 := s.processTx.1) ?_ (ih _ k (hl.of_quiet hq hfc') hi1)
+          intro l
+          simp only [run, hd', Bool.false_eq_true, if_false, ho, Option.toList_none, List.nil_append]
+        · rw [hl.segOf] at hdk
+          rw [hl.msgFor] at ho
+          refine RunRes.emit (s1 := s.processTx.1) hdk ?_ (ih _ (k + 1) (hl.of_quiet hq hfc') hi1)
+          intro l
+          simp only [run, hd', Bool.false_eq_true, if_false, ho, Option.toList_some, List.singleton_append]
+        · rw [hl.segOf] at hdk hlen
+          rw [hl.msgFor] at ho
+          right
+          refine ⟨[], rest, rfl, by simpa [run] using hi, hl, by simp [Sent, run], hd', Or.inl ⟨d, ho, ?_, hfin⟩⟩
+          have hdrop := drop_of_getElem? _ _ _ hdk
+          rw [hdrop, List.drop_eq_nil_of_le (by omega)]
+          simp [run]
+        · right
+          exact ⟨[], rest, rfl, by simpa [run] using hi, hl, by simp [Sent, run], hd', Or.inr hfail⟩
+
+/-! ### `send` (part D) -/
+
+theorem send_too_big (s : State) (a : SendArgs) (h : a.size > 0xFFFFFFFF) : s.send a = (s, some .ValueError) := by
+  unfold State.send
+  dsimp only
+  have h1 : ¬ a.size < 0 := by omega
+  rw [if_neg h1, if_pos h]
+
+theorem send_negative (s : State) (a : SendArgs) (h : a.size < 0) : s.send a = (s, some .ValueError) := by
+  unfold State.send
+  dsimp only
+  rw [if_pos h]
+
+/-- the request object `send` builds -/
+def reqOf (s : State) (a : SendArgs) : Req :=
+  { id := a.id, size := a.size.toNat, src := a.src, tat := a.tat.getD s.cfg.defaultTat, instr := a.instr }
+
+theorem send_accepts (s : State) (a : SendArgs) (h0 : 0 ≤ a.size) (h1 : a.size ≤ 0xFFFFFFFF)
+    (hf : ¬ (a.tat.getD s.cfg.defaultTat = .functional ∧
+            a.size.toNat + (if s.cfg.txDl = 8 then 1 else 2) + s.txPrefixLen > s.cfg.txDl)) :
+    (s.send a).1 = { s with txQueue := s.txQueue ++ [reqOf s a] } ∧
+    (s.send a).2 = (if s.cfg.blocking then some .BlockingSendTimeout else none) := by
+  unfold State.send
+  dsimp only
+  rw [if_neg (by omega), if_neg (by omega)]
+  have : ¬ ((decide (a.tat.getD s.cfg.defaultTat = .functional) &&
+      decide (a.size.toNat + (if s.cfg.txDl = 8 then 1 else 2) + s.txPrefixLen > s.cfg.txDl)) = true) := by
+    simpa using hf
+  rw [if_neg this]
+  split <;> exact ⟨rfl, rfl⟩
+
+/-- a bytes payload (or a generator that yields at least `size` values) gives a fresh request for its first `size`
+    values -/
+theorem reqOf_fresh (s : State) (a : SendArgs) (p : Bytes) (hs : a.size = p.length) (hp : a.src.take p.length = p) :
+    Fresh (reqOf s a) p := by
+  refine ⟨⟨by simp [reqOf, hs], by simp [reqOf], ?_, rfl⟩, rfl⟩
+  simp [reqOf, hs, hp]
+
 end Isotp.Proofs
